@@ -626,6 +626,10 @@ def plan_C17(w):
     q = Q(w)
     known = vlib.load_known()
     run_mc(w, [("hg1", "MC_hg1.cfg", 4, 300)])
+    r = w.model_check("node", "MC_node.cfg", module="Node.tla", workers=2, timeout=300)
+    if not r.get("complete"):
+        raise Infra("Node.tla did not complete: %s" % r.get("raw_tail"))
+    log("  mc node      Node.tla (state gate, heartbeat, transitions): distinct=%s, C17_Frozen / C17_SuspendedServesSync / C17_Final hold" % r.get("distinct"))
     traces, sums = drive_all(w, gossip_specs(w, rpc_kinds(w, q)), mode="rpc")
     td, sd = drive_all(w, gossip_specs(w, [("dyn", dict(traces=5 if q else 12, n=0, steps=330 if q else 500))]), mode="dyn")
     tvs = w.validate_many(traces + td, par=6)
